@@ -1,6 +1,630 @@
-/- C16 - property theorems (stub: not built yet) -/
-import NotationModel.Model.C16
+/-
+C16 - A plugin name can never reach outside the plugin directory.
+Property theorems; the model is in `Model/C16.lean`, path lemmas in `Lemmas/C16Path.lean`.
+
+Reading guide:
+* `facts_*`            decidable obligations on the facts extracted from the Go source
+                       (guards present and first, rule of `validatePluginName`, prefix, data flow);
+* `valid_is_single_component`, `comps_dirPath`, `comps_exePath`, `valid_name_confined`
+                       a validated name is one component and leads to `<root>/<name>` /
+                       `<root>/<name>/notation-<name>` - all strings, all roots;
+* `invalid_name_no_effect`   a rejected name gives an error and the empty effect log;
+* `guard_is_necessary` without validation the same path functions do leave the root;
+* `list_real_dirs`     the listing is exactly the real sub-directories of the root;
+* `model_holds`        every clause of `Holds` for every input.
+-/
+import NotationModel.Lemmas.C16Path
+set_option linter.unusedSimpArgs false
 
 namespace NotationModel.C16
+
+/-! ### obligations on the extracted facts (re-checked whenever the Go source changes) -/
+
+/-- the three entry points validate the name before anything else uses it -/
+theorem facts_guards :
+    Facts.c16GetValidatesFirst = true ∧ Facts.c16UninstallValidatesFirst = true ∧
+    Facts.c16InstallValidatesBeforeUse = true := by decide
+
+/-- the validated variable is the one the path is built from; `binName`, `parsePluginName`,
+`SysPath` and the verifier's hand-over have the shape the model gives them -/
+theorem facts_flow :
+    Facts.c16GetJoinsNameAndBinName = true ∧ Facts.c16UninstallUsesSysPathOfName = true ∧
+    Facts.c16BinNameIsPrefixPlusName = true ∧ Facts.c16ParseCutsPrefix = true ∧
+    Facts.c16SysPathIsJoinUnderRoot = true ∧ Facts.c16VerifierPassesAttributeToGet = true := by decide
+
+/-- the rule of `validatePluginName` refuses the empty name, `.`, `..`, and every name with a
+separator (`/`; `\` for Windows, where `filepath` treats it as one) or a NUL -/
+theorem facts_rule :
+    ([] : Text) ∈ Facts.c16SpecialNames ∧ dot ∈ Facts.c16SpecialNames ∧ dotdot ∈ Facts.c16SpecialNames ∧
+    '/' ∈ Facts.c16ForbiddenChars ∧ '\x00' ∈ Facts.c16ForbiddenChars ∧ '\\' ∈ Facts.c16ForbiddenChars := by decide
+
+/-- ... and nothing else that an ordinary name could be or contain -/
+theorem facts_rule_not_excessive :
+    Facts.c16SpecialNames.all (fun s => !plainName s) = true ∧
+    Facts.c16ForbiddenChars.all (fun c => !plainChar c) = true := by decide
+
+theorem facts_prefix : Facts.c16BinaryPrefix = ['n', 'o', 't', 'a', 't', 'i', 'o', 'n', '-'] := by decide
+
+theorem facts_callees :
+    Facts.c16GetCallees = ["validatePluginName", "path.Join", "binName", "m.pluginFS.SysPath", "NewCLIPlugin"] ∧
+    Facts.c16UninstallCallees = ["validatePluginName", "m.pluginFS.SysPath", "os.Stat", "os.RemoveAll"] := by decide
+
+/-! ### names -/
+
+theorem valid_good (n : Text) (h : validName n = true) : Good n := by
+  obtain ⟨f1, f2, f3, f4, _, _⟩ := facts_rule
+  simp only [validName, Bool.and_eq_true, Bool.not_eq_true', List.contains_eq_mem, List.any_eq_false,
+    decide_eq_false_iff_not, decide_eq_true_eq] at h
+  obtain ⟨h1, h2⟩ := h
+  refine ⟨?_, ?_, ?_, ?_⟩
+  · intro e; exact h1 (e ▸ f1)
+  · intro e; exact h1 (e ▸ f2)
+  · intro e; exact h1 (e ▸ f3)
+  · intro e; exact h2 '/' e f4
+
+/-- **a validated name is a single path component** -/
+theorem valid_is_single_component (n : Text) (h : validName n = true) : singleComponent n = true := by
+  obtain ⟨_, _, _, _, f5, _⟩ := facts_rule
+  have g := valid_good n h
+  simp only [validName, Bool.and_eq_true, Bool.not_eq_true', List.contains_eq_mem, List.any_eq_false,
+    decide_eq_false_iff_not, decide_eq_true_eq] at h
+  have h0 : '\x00' ∉ n := fun e => h.2 _ e f5
+  simp [singleComponent, g.1, g.2.1, g.2.2.1, g.2.2.2, h0]
+
+theorem binName_good (n : Text) (h : Good n) : Good (binName n) := by
+  simp only [binName, facts_prefix]
+  refine ⟨by simp, by simp [dot], by simp [dotdot], ?_⟩
+  intro e
+  rcases List.mem_append.1 e with e | e
+  · revert e; decide
+  · exact h.2.2.2 e
+
+theorem join_good (items : List Text) (hne : items ≠ []) (h : ∀ x ∈ items, Good x) :
+    join items = joinSlash items := by
+  have hf : items.filter (fun e => !e.isEmpty) = items := by
+    apply List.filter_eq_self.2
+    intro x hx
+    have := (h x hx).1
+    cases x with
+    | nil => exact absurd rfl this
+    | cons => rfl
+  have hq := joinSlash_good_ne_nil items hne h
+  have hr := joinSlash_good_not_rooted items hne h
+  have hs := splitSlash_joinSlash items hne (fun x hx => (h x hx).2.2.2)
+  have hn : normComps false items = items := by
+    have := normComps_append_good false [] items h
+    simpa [normComps] using this
+  unfold join
+  rw [hf]
+  cases items with
+  | nil => exact absurd rfl hne
+  | cons a r =>
+    simp only [clean, hq, if_false, hr, hs, hn, Bool.false_eq_true]
+    simp
+
+/-- **where a validated name leads**: for every root string, `Uninstall` / `Install` work on the
+path whose components are those of the cleaned root followed by exactly `[name]`, and `Get`
+looks at the cleaned root followed by exactly `[name, "notation-" ++ name]`. -/
+theorem comps_dirPath (root n : Text) (h : validName n = true) :
+    comps (dirPath root n) = rootComps root ++ [n] := by
+  have g := valid_good n h
+  have := comps_sysPath root [n] (by simp) (by simpa using g)
+  simpa [dirPath, joinSlash] using this
+
+theorem comps_exePath (root n : Text) (h : validName n = true) :
+    comps (exePath root n) = rootComps root ++ [n, binName n] := by
+  have g := valid_good n h
+  have hall : ∀ x ∈ [n, binName n], Good x := by
+    intro x hx
+    simp at hx
+    rcases hx with e | e
+    · exact e ▸ g
+    · exact e ▸ binName_good n g
+  have := comps_sysPath root [n, binName n] (by simp) hall
+  rw [exePath, join_good _ (by simp) hall]
+  exact this
+
+
+/-! ### helper lemmas for `model_holds` -/
+
+theorem mem_insertText (a x : Text) : ∀ l, x ∈ insertText a l ↔ x = a ∨ x ∈ l
+  | [] => by simp [insertText]
+  | b :: r => by
+    simp only [insertText]
+    split
+    · simp
+    · simp [mem_insertText a x r]; constructor
+      · rintro (h | h | h) <;> simp [h]
+      · rintro (h | h | h) <;> simp [h]
+
+theorem mem_sortTexts (x : Text) : ∀ l, x ∈ sortTexts l ↔ x ∈ l
+  | [] => by simp [sortTexts]
+  | a :: r => by simp [sortTexts, mem_insertText, mem_sortTexts x r]
+
+theorem all_sortTexts (p : Text → Bool) (l : List Text) : (sortTexts l).all p = l.all p := by
+  rw [Bool.eq_iff_iff]
+  simp [List.all_eq_true, mem_sortTexts]
+
+theorem lookup_some {fs : List Node} {p : Text} {n : Node} (h : lookup fs p = some n) :
+    n ∈ fs ∧ comps n.path = comps p := by
+  unfold lookup at h
+  refine ⟨List.mem_of_find?_eq_some h, ?_⟩
+  have := List.find?_some h
+  simpa [samePath] using this
+
+theorem plain_valid (n : Text) (h : plainName n = true) : validName n = true := by
+  obtain ⟨r1, r2⟩ := facts_rule_not_excessive
+  simp only [plainName, Bool.and_eq_true, bne_iff_ne, ne_eq, List.all_eq_true] at h
+  simp only [List.all_eq_true, Bool.not_eq_true'] at r1 r2
+  simp only [validName, Bool.and_eq_true, Bool.not_eq_true', List.contains_eq_mem, List.any_eq_false,
+    decide_eq_false_iff_not, decide_eq_true_eq]
+  constructor
+  · intro hm
+    have := r1 n hm
+    simp [plainName, h.1.1.1, h.1.1.2, h.1.2] at this
+    obtain ⟨c, hc, hp⟩ := this
+    simp [h.2 c hc] at hp
+  · intro c hc hm
+    have := r2 c hm
+    simp [h.2 c hc] at this
+
+theorem mgrGet_ok {fs : List Node} {root name : Text} {n : Node} (h : mgrGet fs root name = .ok n) :
+    validName name = true ∧ lookup fs (exePath root name) = some n ∧ n.kind.statRegular = true := by
+  obtain ⟨g1, _, _⟩ := facts_guards
+  unfold mgrGet at h
+  rw [g1] at h
+  by_cases hv : validName name = true
+  · simp only [hv, Bool.not_true, Bool.and_false, Bool.false_eq_true, if_false] at h
+    cases hl : lookup fs (exePath root name) with
+    | none => simp [hl] at h
+    | some m =>
+      simp only [hl] at h
+      by_cases hr : m.kind.statRegular = true
+      · simp only [hr, if_true, Except.ok.injEq] at h
+        subst h
+        exact ⟨hv, rfl, hr⟩
+      · simp [hr] at h
+  · simp [hv] at h
+
+theorem mgrGet_ok_exe {fs : List Node} {root name : Text} {n : Node} (h : mgrGet fs root name = .ok n) :
+    isPluginExe root name n.path = true := by
+  obtain ⟨hv, hl, _⟩ := mgrGet_ok h
+  have := (lookup_some hl).2
+  simp [isPluginExe, this, comps_exePath root name hv]
+
+theorem mgrGet_invalid {fs : List Node} {root name : Text} (hv : validName name = false) :
+    mgrGet fs root name = .error .invalid := by
+  obtain ⟨g1, _, _⟩ := facts_guards
+  simp [mgrGet, g1, hv]
+
+theorem holds_get (i : Input) (h : i.op = .get) : Holds i (runGet i) = true := by
+  simp only [Holds, clauses, effName, h, Clauses.holds_cons, Clauses.holds_nil, Bool.and_true]
+  unfold runGet
+  cases hv : validName i.name with
+  | false =>
+    have hp : plainName i.name = false := by
+      cases hp : plainName i.name with
+      | false => rfl
+      | true => rw [plain_valid _ hp] at hv; cases hv
+    simp [mgrGet_invalid hv, errObs, hp]
+  | true =>
+    have hs := valid_is_single_component _ hv
+    cases hg : mgrGet i.fs i.root i.name with
+    | error e =>
+      simp only [errObs, hs]
+      have : lookup i.fs (exePath i.root i.name) = none ∨
+          ∃ n, lookup i.fs (exePath i.root i.name) = some n ∧ n.kind.statRegular = false := by
+        obtain ⟨g1, _, _⟩ := facts_guards
+        unfold mgrGet at hg
+        simp only [g1, hv, Bool.not_true, Bool.and_false, Bool.false_eq_true, if_false] at hg
+        cases hl : lookup i.fs (exePath i.root i.name) with
+        | none => exact Or.inl rfl
+        | some m =>
+          right
+          refine ⟨m, rfl, ?_⟩
+          simp only [hl] at hg
+          cases hr : m.kind.statRegular with
+          | false => rfl
+          | true => simp [hr] at hg
+      rcases this with hl | ⟨n, hl, hr⟩
+      · simp [hl]
+      · have : (n.kind == Kind.exec) = false := by
+          cases hk : n.kind <;> simp [hk, Kind.statRegular] at hr ⊢
+        simp [hl, this]
+    | ok n =>
+      obtain ⟨_, hl, hr⟩ := mgrGet_ok hg
+      have hx := mgrGet_ok_exe hg
+      simp only [hs, hl]
+      by_cases hk : n.kind = .exec
+      · simp [ranBy, hk, hx]
+      · simp [ranBy, hk]
+
+theorem holds_verify (i : Input) (h : i.op = .verify) : Holds i (runVerify i) = true := by
+  simp only [Holds, clauses, effName, h, Clauses.holds_cons, Clauses.holds_nil, Bool.and_true]
+  unfold runVerify
+  by_cases hsp : i.name.all isSpace = true
+  · simp [hsp, errObs]
+  · simp only [hsp, if_false, Bool.false_eq_true]
+    cases hv : validName i.name with
+    | false => simp [mgrGet_invalid hv, errObs]
+    | true =>
+      have hs := valid_is_single_component _ hv
+      cases hg : mgrGet i.fs i.root i.name with
+      | error e => simp [errObs, hs]
+      | ok n =>
+        have hx := mgrGet_ok_exe hg
+        by_cases hk : n.kind = .exec
+        · simp [ranBy, hk, hx, hs]
+        · simp [ranBy, hk, hs]
+
+theorem holds_list (i : Input) (h : i.op = .list) : Holds i (runList i) = true := by
+  simp [Holds, clauses, effName, h, Clauses.holds_cons, Clauses.holds_nil, runList]
+
+theorem holds_uninstall (i : Input) (h : i.op = .uninstall) : Holds i (runUninstall i) = true := by
+  obtain ⟨_, g2, _⟩ := facts_guards
+  simp only [Holds, clauses, effName, h, Clauses.holds_cons, Clauses.holds_nil, Bool.and_true]
+  unfold runUninstall
+  rw [g2]
+  cases hv : validName i.name with
+  | false =>
+    have hp : plainName i.name = false := by
+      cases hp : plainName i.name with
+      | false => rfl
+      | true => rw [plain_valid _ hp] at hv; cases hv
+    simp [errObs, hp]
+  | true =>
+    have hs := valid_is_single_component _ hv
+    have hd := comps_dirPath i.root i.name hv
+    cases hl : lookup i.fs (dirPath i.root i.name) with
+    | none => simp [errObs, hs]
+    | some n =>
+      obtain ⟨hm, hc⟩ := lookup_some hl
+      simp only [hs, all_sortTexts]
+      have h1 : (List.map (fun x => x.path) (List.filter (fun n => under (dirPath i.root i.name) n.path) i.fs)).all
+          (inPluginDir i.root i.name) = true := by
+        simp only [List.all_eq_true, List.mem_map, List.mem_filter]
+        rintro p ⟨m, ⟨_, hu⟩, rfl⟩
+        simpa [under, inPluginDir, hd] using hu
+      have h2 : (sortTexts (List.map (fun x => x.path) (List.filter (fun n => under (dirPath i.root i.name) n.path) i.fs))).contains n.path = true := by
+        simp only [List.contains_eq_mem, decide_eq_true_eq, mem_sortTexts, List.mem_map, List.mem_filter]
+        exact ⟨n, ⟨hm, by simp [under, hc]⟩, rfl⟩
+      simp
+      refine ⟨?_, Or.inr ?_⟩
+      · intro x hx
+        rw [mem_sortTexts] at hx
+        exact List.all_eq_true.1 h1 x hx
+      · simpa using h2
+
+theorem fromDir_mem {fs : List Node} {d : Text} {r : Node × Text} (h : fromDir fs d = some r) :
+    childOf (comps d) r.1.path = true := by
+  unfold fromDir at h
+  simp only [] at h
+  have key : ∀ x, x ∈ List.filterMap (fun n =>
+      if (childOf (comps d) n.path && n.kind.lstatRegular) = true then
+        Option.map (fun nm => (n, nm)) (parsePluginName (baseName n.path))
+      else none) fs → childOf (comps d) x.1.path = true := by
+    intro x hx
+    obtain ⟨n, _, hn⟩ := List.mem_filterMap.1 hx
+    split at hn
+    · rename_i hc
+      cases hp : parsePluginName (baseName n.path) with
+      | none => simp [hp] at hn
+      | some nm =>
+        simp [hp] at hn
+        subst hn
+        simp at hc
+        exact hc.1
+    · cases hn
+  split at h
+  · rename_i e he
+    injection h with h
+    subst h
+    apply key
+    have hmem : e ∈ [e] := by simp
+    rw [← he] at hmem
+    exact (List.mem_filter.1 hmem).1
+  · split at h
+    · rename_i c hc
+      injection h with h
+      subst h
+      apply key
+      rw [hc]; simp
+    · cases h
+  · cases h
+
+theorem installSource_under {fs : List Node} {src : Text} {s e : Node} {nm : Text}
+    (h : installSource fs src = some (s, e, nm)) : under src e.path = true := by
+  unfold installSource at h
+  split at h
+  · cases h
+  · split at h
+    · cases h
+    · rename_i s' hl
+      have hc := (lookup_some hl).2
+      split at h
+      · cases hf : fromDir fs s'.path with
+        | none => simp [hf] at h
+        | some r =>
+          have := fromDir_mem hf
+          simp [hf] at h
+          obtain ⟨_, h2, _⟩ := h
+          subst h2
+          simp only [childOf, beq_iff_eq] at this
+          simp [under, this, ← hc]
+      · split at h
+        · cases h
+        · split at h
+          · injection h with h
+            injection h with h1 h2
+            injection h2 with h2 h3
+            subst h2
+            simp [under, hc]
+          · cases h
+
+theorem comps_copied {fs : List Node} {src exe : Node} {d : Text} {n : Node} (h : n ∈ copied fs src exe d) :
+    (comps d).isPrefixOf (comps n.path) = true := by
+  unfold copied at h
+  simp only [List.mem_map] at h
+  obtain ⟨f, _, rfl⟩ := h
+  simp [comps_append_slash]
+
+theorem holds_install_obs (i : Input) (h : i.op = .install) (s e : Node) (nm : Text)
+    (hsrc : installSource i.fs i.src = some (s, e, nm)) (hv : validName nm = true)
+    (ran : List Text) (hran : ∀ p ∈ ran, isPluginExe i.root nm p = true ∨ under i.src p = true) :
+    Holds i (installFail ran) = true ∧ Holds i (installFinish i s e nm ran) = true := by
+  obtain ⟨_, g2, _⟩ := facts_guards
+  have hs := valid_is_single_component _ hv
+  have hd := comps_dirPath i.root nm hv
+  have hex : (sortTexts ran).all (fun p => isPluginExe i.root nm p || (i.op == Op.install && under i.src p)) = true := by
+    rw [all_sortTexts, List.all_eq_true]
+    intro p hp
+    rcases hran p hp with e | e <;> simp [e, h]
+  have hfail : Holds i (installFail ran) = true := by
+    simp only [Holds, clauses, effName, h, hsrc, Clauses.holds_cons, Clauses.holds_nil, Bool.and_true, installFail]
+    simp [hs]
+    simpa [h] using hex
+  refine ⟨hfail, ?_⟩
+  unfold installFinish
+  simp only [g2, hv, Bool.not_true, Bool.and_false, Bool.false_eq_true, if_false]
+  simp only [Holds, clauses, effName, h, hsrc, Clauses.holds_cons, Clauses.holds_nil, Bool.and_true]
+  have hch : (sortTexts (diffPaths (List.filter (fun n => under (dirPath i.root nm) n.path) i.fs)
+      ({ path := dirPath i.root nm, kind := Kind.dir, ver := 0 } :: copied i.fs s e (dirPath i.root nm)))).all
+      (inPluginDir i.root nm) = true := by
+    rw [all_sortTexts, List.all_eq_true]
+    intro p hp
+    simp only [diffPaths, List.mem_append, List.mem_map, List.mem_filter] at hp
+    rcases hp with ⟨n, ⟨⟨_, hu⟩, _⟩, rfl⟩ | ⟨n, ⟨hn, _⟩, rfl⟩
+    · simpa [under, inPluginDir, hd] using hu
+    · rcases List.mem_cons.1 hn with e' | e'
+      · subst e'
+        simp [inPluginDir, hd]
+      · have := comps_copied e'
+        simpa [inPluginDir, hd] using this
+  simp [hs]
+  refine ⟨?_, ?_⟩
+  · simpa using hch
+  · simpa [h] using hex
+
+theorem holds_install (i : Input) (h : i.op = .install) : Holds i (runInstall i) = true := by
+  obtain ⟨_, _, g3⟩ := facts_guards
+  unfold runInstall
+  cases hsrc : installSource i.fs i.src with
+  | none => simp [Holds, clauses, effName, h, hsrc, errObs, Clauses.holds]
+  | some r =>
+    obtain ⟨s, e, nm⟩ := r
+    simp only [g3]
+    cases hv : validName nm with
+    | false => simp [Holds, clauses, effName, h, hsrc, errObs, Clauses.holds]
+    | true =>
+      have hs := valid_is_single_component _ hv
+      simp only [Bool.not_true, Bool.and_false, Bool.false_eq_true, if_false]
+      by_cases hk : e.kind = .exec
+      · have hu := installSource_under hsrc
+        have h1 : ∀ p ∈ [e.path], isPluginExe i.root nm p = true ∨ under i.src p = true := by
+          intro p hp
+          simp at hp
+          subst hp
+          exact Or.inr hu
+        have o1 := holds_install_obs i h s e nm hsrc hv [e.path] h1
+        simp only [hk, bne_self_eq_false, Bool.false_eq_true, if_false]
+        cases hg : mgrGet i.fs i.root nm with
+        | error er =>
+          simp only []
+          split
+          · exact o1.1
+          · exact o1.2
+        | ok ex =>
+          have h2 : ∀ p ∈ [e.path, ex.path], isPluginExe i.root nm p = true ∨ under i.src p = true := by
+            intro p hp
+            simp at hp
+            rcases hp with hp | hp
+            · subst hp; exact Or.inr hu
+            · subst hp; exact Or.inl (mgrGet_ok_exe hg)
+          have o2 := holds_install_obs i h s e nm hsrc hv [e.path, ex.path] h2
+          simp only []
+          split
+          · split
+            · exact o2.1
+            · exact o2.2
+          · split
+            · exact o1.1
+            · exact o1.2
+      · have : (e.kind != Kind.exec) = true := by simp [hk]
+        simp [this, Holds, clauses, effName, h, hsrc, errObs, Clauses.holds, hs]
+
+/-! ### the property -/
+
+/-- **C16, the whole property**: every clause of `Holds` is true of the model's behaviour, for
+every operation, every root string, every name and every world. -/
+theorem model_holds (i : Input) : Holds i (run i) = true := by
+  unfold run
+  cases h : i.op with
+  | get => exact holds_get i h
+  | uninstall => exact holds_uninstall i h
+  | install => exact holds_install i h
+  | verify => exact holds_verify i h
+  | list => exact holds_list i h
+
+/-! ### readable corollaries -/
+
+/-- **valid_name_confined** (paths): for every root string and every name that
+`validatePluginName` accepts, the name is a single path component, the directory that
+`Uninstall` / `Install` stat, remove and create is exactly `<cleaned root>/<name>`, and the
+file that `Get` stats (and whose execution it enables) is exactly
+`<cleaned root>/<name>/notation-<name>`. -/
+theorem valid_name_confined (root n : Text) (h : validName n = true) :
+    singleComponent n = true ∧
+    comps (dirPath root n) = rootComps root ++ [n] ∧
+    comps (exePath root n) = rootComps root ++ [n, Facts.c16BinaryPrefix ++ n] :=
+  ⟨valid_is_single_component n h, comps_dirPath root n h, comps_exePath root n h⟩
+
+/-- **valid_name_confined** (effects): whatever an operation changes lies in `<root>/<name>`,
+whatever it runs is `<root>/<name>/notation-<name>` or (install) the install source - for
+every input; `<name>` is a single component whenever anything ran or changed at all. -/
+theorem effects_confined (i : Input) (hop : i.op ≠ .list) :
+    (∀ p ∈ (run i).changed, ∃ n, effName i = some n ∧ singleComponent n = true ∧ inPluginDir i.root n p = true) ∧
+    (∀ p ∈ (run i).executed, ∃ n, effName i = some n ∧ singleComponent n = true ∧
+      (isPluginExe i.root n p = true ∨ (i.op = .install ∧ under i.src p = true))) := by
+  have hm := model_holds i
+  have hl : (i.op == Op.list) = false := by simpa using hop
+  simp only [Holds, clauses, Clauses.holds_cons, Clauses.holds_nil, Bool.and_true, Bool.and_eq_true, hl,
+    Bool.false_or] at hm
+  obtain ⟨_, c2, c3, c4, _⟩ := hm
+  cases hn : effName i with
+  | none =>
+    simp only [hn] at c2 c3 c4
+    simp only [Bool.and_eq_true, List.isEmpty_iff] at c2
+    simp [c2.1, c2.2]
+  | some n =>
+    simp only [hn] at c2 c3 c4
+    constructor
+    · intro p hp
+      refine ⟨n, rfl, ?_, List.all_eq_true.1 c3 p hp⟩
+      cases hs : singleComponent n with
+      | true => rfl
+      | false =>
+        simp only [hs, Bool.false_or, Bool.and_eq_true, List.isEmpty_iff] at c2
+        rw [c2.2] at hp
+        cases hp
+    · intro p hp
+      refine ⟨n, rfl, ?_, ?_⟩
+      · cases hs : singleComponent n with
+        | true => rfl
+        | false =>
+          simp only [hs, Bool.false_or, Bool.and_eq_true, List.isEmpty_iff] at c2
+          rw [c2.1] at hp
+          cases hp
+      · have := List.all_eq_true.1 c4 p hp
+        simpa using this
+
+/-- **invalid_name_no_effect**: a name that `validatePluginName` refuses - in particular every
+name that is not a single path component - yields an error, runs nothing and changes nothing,
+through lookup, uninstall and end-to-end verification ... -/
+theorem invalid_name_no_effect (i : Input) (h : validName i.name = false)
+    (hop : i.op = .get ∨ i.op = .uninstall ∨ i.op = .verify) : run i = errObs := by
+  obtain ⟨_, g2, _⟩ := facts_guards
+  rcases hop with hop | hop | hop
+  · simp [run, hop, runGet, mgrGet_invalid h]
+  · simp [run, hop, runUninstall, g2, h]
+  · simp only [run, hop, runVerify, mgrGet_invalid h]
+    split <;> rfl
+
+/-- ... and through install, where the name comes from the file name `notation-<name>` -/
+theorem invalid_name_no_effect_install (i : Input) (s e : Node) (nm : Text) (hop : i.op = .install)
+    (hsrc : installSource i.fs i.src = some (s, e, nm)) (h : validName nm = false) : run i = errObs := by
+  obtain ⟨_, _, g3⟩ := facts_guards
+  simp [run, hop, runInstall, hsrc, g3, h]
+
+/-- every name that is not a single path component is refused by `validatePluginName` -/
+theorem non_component_is_invalid (n : Text) (h : singleComponent n = false) : validName n = false := by
+  cases hv : validName n with
+  | false => rfl
+  | true => rw [valid_is_single_component n hv] at h; cases h
+
+/-- **guard_is_necessary**: the path functions alone do not confine anything - without the
+validation `Uninstall("../victim")` on root `/a/p` works on `/a/victim`, `Get("../../victim")`
+on root `/a/b/p` looks at `/a/victim/victim`, and a file `notation-..` installs into the
+parent of the root. These are the replays of the defect repaired by the `fix:` commit. -/
+theorem guard_is_necessary :
+    dirPath "/a/p".toList "../victim".toList = "/a/victim".toList ∧
+    exePath "/a/b/p".toList "../../victim".toList = "/a/victim/victim".toList ∧
+    dirPath "/a/p".toList "..".toList = "/a".toList ∧
+    inPluginDir "/a/p".toList "../victim".toList (dirPath "/a/p".toList "../victim".toList) = false ∧
+    (rootComps "/a/p".toList).isPrefixOf (comps (dirPath "/a/p".toList "../victim".toList)) = false := by
+  decide
+
+theorem baseName_of_comps (q : Text) (pc : List Text) (x : Text) (h : comps q = pc ++ [x]) : baseName q = x := by
+  simp [baseName, h]
+
+/-- **list_real_dirs**: `List` reports `x` iff the world has a real directory (not a symbolic
+link, not a file) whose path is `<cleaned root>/x`; nothing deeper, nothing outside. -/
+theorem list_real_dirs (i : Input) (x : Text) :
+    x ∈ (runList i).listed ↔
+      ∃ n ∈ i.fs, n.kind = .dir ∧ comps n.path = rootComps i.root ++ [x] := by
+  simp only [runList, mem_sortTexts, List.mem_map, List.mem_filter, Bool.and_eq_true, decide_eq_true_eq,
+    childOf, beq_iff_eq]
+  constructor
+  · rintro ⟨n, ⟨hn, hk, hc⟩, rfl⟩
+    exact ⟨n, hn, hk, hc⟩
+  · rintro ⟨n, hn, hk, hc⟩
+    have hb := baseName_of_comps _ _ _ hc
+    exact ⟨n, ⟨hn, hk, by rw [hb]; exact hc⟩, hb⟩
+
+/-- the listing never errs and touches nothing -/
+theorem list_is_pure (i : Input) : (runList i).err = false ∧ (runList i).executed = [] ∧ (runList i).changed = [] := by
+  simp [runList]
+
+/-! ### non-vacuity -/
+
+def sampleFS : List Node :=
+  [ ⟨"/a".toList, .dir, 0⟩, ⟨"/a/p".toList, .dir, 0⟩, ⟨"/a/p/good".toList, .dir, 0⟩,
+    ⟨"/a/p/good/notation-good".toList, .exec, 2⟩, ⟨"/a/p/lnk".toList, .symdir, 0⟩, ⟨"/a/p/f".toList, .file, 1⟩,
+    ⟨"/a/victim".toList, .dir, 0⟩, ⟨"/a/victim/notation-victim".toList, .exec, 7⟩,
+    ⟨"/src".toList, .dir, 0⟩, ⟨"/src/notation-new".toList, .exec, 2⟩, ⟨"/src/notation-..".toList, .exec, 2⟩ ]
+
+/-- a valid, installed name is found and run where it should be -/
+example : run { op := .get, root := "/a/p/".toList, name := "good".toList, src := [], overwrite := false, trusted := true, fs := sampleFS } =
+    { err := false, executed := ["/a/p/good/notation-good".toList], changed := [], listed := [] } := by decide
+
+/-- uninstall removes exactly the plugin directory -/
+example : run { op := .uninstall, root := "/a/p".toList, name := "good".toList, src := [], overwrite := false, trusted := true, fs := sampleFS } =
+    { err := false, executed := [], changed := ["/a/p/good".toList, "/a/p/good/notation-good".toList], listed := [] } := by decide
+
+/-- the traversal is refused -/
+example : run { op := .uninstall, root := "/a/p".toList, name := "../victim".toList, src := [], overwrite := false, trusted := true, fs := sampleFS } =
+    errObs := by decide
+
+/-- install from a file creates `<root>/<name>/notation-<name>` and runs only the source -/
+example : run { op := .install, root := "/a/p".toList, name := "new".toList, src := "/src/notation-new".toList, overwrite := false, trusted := true, fs := sampleFS } =
+    { err := false, executed := ["/src/notation-new".toList],
+      changed := ["/a/p/new".toList, "/a/p/new/notation-new".toList], listed := [] } := by decide
+
+/-- a file called `notation-..` is refused before it is run -/
+example : run { op := .install, root := "/a/p".toList, name := "..".toList, src := "/src/notation-..".toList, overwrite := true, trusted := true, fs := sampleFS } =
+    errObs := by decide
+
+/-- the listing: the real directory only -/
+example : (run { op := .list, root := "/a/p".toList, name := [], src := [], overwrite := false, trusted := true, fs := sampleFS }).listed =
+    ["good".toList] := by decide
+
+/-- `Holds` is false of the unguarded behaviour: the victim directory removed ... -/
+example : Holds { op := .uninstall, root := "/a/p".toList, name := "../victim".toList, src := [], overwrite := false, trusted := true, fs := sampleFS }
+    { err := false, executed := [], changed := ["/a/victim".toList, "/a/victim/notation-victim".toList], listed := [] } = false := by decide
+
+/-- end to end: the plugin named by the signature runs although the signer is not trusted -/
+example : run { op := .verify, root := "/a/p".toList, name := "good".toList, src := [], overwrite := false, trusted := false, fs := sampleFS } =
+    { err := true, executed := ["/a/p/good/notation-good".toList], changed := [], listed := [] } := by decide
+
+/-- ... a sentinel outside the root executed ... -/
+example : Holds { op := .verify, root := "/a/p".toList, name := "../victim".toList, src := [], overwrite := false, trusted := false, fs := sampleFS }
+    { err := true, executed := ["/a/victim/notation-victim".toList], changed := [], listed := [] } = false := by decide
+
+/-- ... or a hostile name merely accepted without an error -/
+example : Holds { op := .get, root := "/a/p".toList, name := "good/../good".toList, src := [], overwrite := false, trusted := true, fs := sampleFS }
+    { err := false, executed := [], changed := [], listed := [] } = false := by decide
+
+/-- and of a listing that reports a symbolic link -/
+example : Holds { op := .list, root := "/a/p".toList, name := [], src := [], overwrite := false, trusted := true, fs := sampleFS }
+    { err := false, executed := [], changed := [], listed := ["good".toList, "lnk".toList] } = false := by decide
 
 end NotationModel.C16
